@@ -209,6 +209,70 @@ func (a *wnfa) erase(drop func(string) bool) *wnfa {
 	return b
 }
 
+// without returns a copy of a with the arcs carrying the given labels removed (the paths through them are gone).
+func (a *wnfa) without(drop func(string) bool) *wnfa {
+	b := newWNFA()
+	for range a.eps {
+		b.state()
+	}
+	b.start = a.start
+	for s := range a.eps {
+		b.eps[s] = append(b.eps[s], a.eps[s]...)
+		for l, ts := range a.tr[s] {
+			if drop(l) {
+				continue
+			}
+			for _, t := range ts {
+				b.arc(s, l, t)
+			}
+		}
+	}
+	for s := range a.acc {
+		b.acc[s] = true
+	}
+	return b
+}
+
+// wnfaUnion accepts what a or b accepts.
+func wnfaUnion(a, b *wnfa) *wnfa {
+	u := newWNFA()
+	start := u.state()
+	u.start = start
+	add := func(x *wnfa) {
+		off := len(u.eps)
+		for range x.eps {
+			u.state()
+		}
+		for s := range x.eps {
+			for _, t := range x.eps[s] {
+				u.arc(s+off, "", t+off)
+			}
+			for l, ts := range x.tr[s] {
+				for _, t := range ts {
+					u.arc(s+off, l, t+off)
+				}
+			}
+		}
+		for s := range x.acc {
+			u.acc[s+off] = true
+		}
+		u.arc(start, "", x.start+off)
+	}
+	add(a)
+	add(b)
+	return u
+}
+
+// c08ConsistentToggle: whether the stream implements the crypto-for-secret toggle does not change while one ad
+// is read or written, so a path on which one test of it says yes (T+) and another says no (T-) does not exist.
+// The language is restricted to the paths whose toggle tests agree, and the test outcomes are then erased.
+func c08ConsistentToggle(a *wnfa) *wnfa {
+	is := func(l, want string) bool { return strings.TrimSuffix(l, wireLoop) == want }
+	yes := a.without(func(l string) bool { return is(l, "T-") })
+	no := a.without(func(l string) bool { return is(l, "T+") })
+	return wnfaUnion(yes, no).erase(func(l string) bool { return is(l, "T+") || is(l, "T-") })
+}
+
 // ---------------------------------------------------------------------------
 // regular expressions for the expected languages
 
@@ -285,6 +349,12 @@ type wireAbs struct {
 	edge func(fn *ssa.Function, b *ssa.BasicBlock) (t, f string)
 	// other classifies a non-call instruction that may matter (e.g. a raw buffer access): a label or "".
 	other func(fn *ssa.Function, in ssa.Instruction) string
+	// actFr, when set, replaces act: it sees the calling context (see edgeFr).
+	actFr func(fr *cxFrame, call ssa.CallInstruction) wireAct
+	// edgeFr, when set, replaces edge: it sees the calling context of the function being spliced in, so that a
+	// test on a helper's parameter can be traced to the caller's argument.
+	edgeFr func(fr *cxFrame, b *ssa.BasicBlock) (t, f string)
+	fr     *cxFrame // calling context of the function currently being spliced in
 
 	a      *wnfa
 	active map[*ssa.Function]bool
@@ -297,6 +367,7 @@ const wireLoop = ".l"
 func (w *wireAbs) build(fn *ssa.Function) *wnfa {
 	w.a = newWNFA()
 	w.active = map[*ssa.Function]bool{}
+	w.fr = cxTop(fn)
 	entry, exits := w.addFn(fn, false)
 	w.a.start = entry
 	for _, x := range exits {
@@ -328,6 +399,46 @@ func c08CyclicBlocks(fn *ssa.Function) map[*ssa.BasicBlock]bool {
 	return out
 }
 
+// c08RetClass is RetPoint.Class refined for functions that contain a defer: go/ssa then keeps the results in
+// local cells ("*t0 = err; rundefers; return *t0"), and the shared classification sees only a load of a cell
+// with several stores ("maybe"). The value stored into the cell last in the return's own block decides.
+func c08RetClass(c *Ctx, fn *ssa.Function, r RetPoint) string {
+	if r.Class != "maybe" || r.Pred != nil {
+		return r.Class
+	}
+	ei := -1
+	for i := 0; i < fn.Signature.Results().Len(); i++ {
+		if isErrorType(fn.Signature.Results().At(i).Type()) {
+			ei = i
+		}
+	}
+	if ei < 0 || ei >= len(r.Ret.Results) {
+		return r.Class
+	}
+	ld, ok := r.Ret.Results[ei].(*ssa.UnOp)
+	if !ok || ld.Op != token.MUL {
+		return r.Class
+	}
+	al, ok := ld.X.(*ssa.Alloc)
+	if !ok {
+		return r.Class
+	}
+	b := r.Ret.Block()
+	var last *ssa.Store
+	for _, in := range b.Instrs {
+		if in == ssa.Instruction(ld) {
+			break
+		}
+		if st, ok := in.(*ssa.Store); ok && st.Addr == ssa.Value(al) {
+			last = st
+		}
+	}
+	if last == nil {
+		return r.Class
+	}
+	return c.classifyErr(fn, last.Val, b, 0)
+}
+
 // addFn splices fn into the automaton; inLoop says whether the call site lies in a loop.
 // It returns the entry state and the states at fn's (possibly) successful returns.
 func (w *wireAbs) addFn(fn *ssa.Function, inLoop bool) (entry int, exits []int) {
@@ -348,16 +459,17 @@ func (w *wireAbs) addFn(fn *ssa.Function, inLoop bool) (entry int, exits []int) 
 	type rk struct{ b, pred *ssa.BasicBlock }
 	errRet := map[rk]bool{}
 	for _, r := range w.c.returnsOf(fn) {
-		if r.Class == "error" {
+		if c08RetClass(w.c, fn, r) == "error" {
 			errRet[rk{r.Ret.Block(), r.Pred}] = true
 		}
 	}
 	// deferred item calls get one bit each, in registration (block) order
 	var defers []*ssa.Defer
 	deferLabel := map[*ssa.Defer]string{}
+	deferInline := map[*ssa.Defer]*ssa.Function{}
 	allInstrs(fn, func(_ *ssa.BasicBlock, _ int, in ssa.Instruction) {
 		if d, ok := in.(*ssa.Defer); ok {
-			act := w.act(fn, d)
+			act := w.actOf(fn, d)
 			switch {
 			case act.Label != "":
 				defers = append(defers, d)
@@ -365,6 +477,7 @@ func (w *wireAbs) addFn(fn *ssa.Function, inLoop bool) (entry int, exits []int) 
 			case act.Inline != nil:
 				defers = append(defers, d)
 				deferLabel[d] = "DEFERRED?" + fnName(act.Inline)
+				deferInline[d] = act.Inline // spliced in where the deferred calls run
 			}
 		}
 	})
@@ -421,20 +534,45 @@ func (w *wireAbs) addFn(fn *ssa.Function, inLoop bool) (entry int, exits []int) 
 				}
 			case *ssa.RunDefers:
 				for i := len(defers) - 1; i >= 0; i-- {
-					if mask&(1<<uint(i)) != 0 {
-						emit(deferLabel[defers[i]])
+					if mask&(1<<uint(i)) == 0 {
+						continue
 					}
+					if g := deferInline[defers[i]]; g != nil {
+						// a deferred same-module helper runs here: splice it in
+						saved := w.fr
+						w.fr = &cxFrame{fn: g, call: defers[i], up: saved}
+						e, xs := w.addFn(g, loop)
+						w.fr = saved
+						a.arc(cur, "", e)
+						n := a.state()
+						for _, s := range xs {
+							a.arc(s, "", n)
+						}
+						cur = n
+						continue
+					}
+					emit(deferLabel[defers[i]])
 				}
 			case *ssa.Go:
-				if act := w.act(fn, x); act.Label != "" || act.Inline != nil {
+				if act := w.actOf(fn, x); act.Label != "" || act.Inline != nil {
 					emit("GO?")
 				}
 			case *ssa.Call:
-				act := w.act(fn, x)
+				act := w.actOf(fn, x)
+				if act.Label == "" && act.Inline == nil && calleeFn(x) == nil && !x.Call.IsInvoke() && w.fr != nil && w.fr.fn == fn {
+					// a function value handed in by the caller ("with...(func() { ... })"): the closure the
+					// caller built is what runs here
+					if g := c08FuncValue(w.fr.resolve(x.Call.Value).v); g != nil && g.Blocks != nil && fnPkg(g) != nil && inModule(fnPkg(g).Path()) {
+						act = wireAct{Inline: g}
+					}
+				}
 				if act.Label != "" {
 					emit(act.Label)
 				} else if act.Inline != nil {
+					saved := w.fr
+					w.fr = &cxFrame{fn: act.Inline, call: x, up: saved}
 					e, xs := w.addFn(act.Inline, loop)
+					w.fr = saved
 					a.arc(cur, "", e)
 					n := a.state()
 					for _, s := range xs {
@@ -464,8 +602,12 @@ func (w *wireAbs) addFn(fn *ssa.Function, inLoop bool) (entry int, exits []int) 
 			continue
 		}
 		tl, fl := "", ""
-		if blockIf(k.b) != nil && w.edge != nil {
-			tl, fl = w.edge(fn, k.b)
+		if blockIf(k.b) != nil {
+			if w.edgeFr != nil && w.fr != nil && w.fr.fn == fn {
+				tl, fl = w.edgeFr(w.fr, k.b)
+			} else if w.edge != nil {
+				tl, fl = w.edge(fn, k.b)
+			}
 		}
 		for i, s := range k.b.Succs {
 			if errRet[rk{s, k.b}] {
@@ -482,6 +624,26 @@ func (w *wireAbs) addFn(fn *ssa.Function, inLoop bool) (entry int, exits []int) 
 		}
 	}
 	return entry, exits
+}
+
+// c08FuncValue: the function a function-typed value denotes when it is a closure or a plain function.
+func c08FuncValue(v ssa.Value) *ssa.Function {
+	switch x := v.(type) {
+	case *ssa.MakeClosure:
+		g, _ := x.Fn.(*ssa.Function)
+		return g
+	case *ssa.Function:
+		return x
+	}
+	return nil
+}
+
+// actOf classifies a call of the function being spliced in, with its calling context when the labeler wants it.
+func (w *wireAbs) actOf(fn *ssa.Function, call ssa.CallInstruction) wireAct {
+	if w.actFr != nil && w.fr != nil && w.fr.fn == fn {
+		return w.actFr(w.fr, call)
+	}
+	return w.act(fn, call)
 }
 
 // ---------------------------------------------------------------------------
@@ -878,6 +1040,190 @@ func (w *wireAnchors) markerEdges(fn *ssa.Function, b *ssa.BasicBlock) (t, f str
 	return "M-", "M+"
 }
 
+// strResultFr is strResult in a calling context: the value may be a helper's parameter (traced to the caller's
+// argument) or the result of a same-module value helper.
+func (w *wireAnchors) strResultFr(fr *cxFrame, v ssa.Value) bool {
+	isItem := func(f *cxFrame, call ssa.CallInstruction) bool {
+		return w.itemAct(f.fn, call).Label == "STR"
+	}
+	os := w.c.cxOriginsOK(fr, v, isItem)
+	if len(os) == 0 {
+		return false
+	}
+	for _, o := range os {
+		call, idx := originCall(o.v)
+		if call == nil || idx != 0 || !isItem(o.fr, call) {
+			return false
+		}
+	}
+	return true
+}
+
+// markerEdgesFr is markerEdges with helper following: the test may be written inline, kept in a local boolean,
+// or sit in a same-module predicate that is handed the string just read (c.cxValueFact). The branch is labelled
+// only when the condition is equivalent to "the string equals SecretMarker" (or its negation).
+func (w *wireAnchors) markerEdgesFr(fr *cxFrame, b *ssa.BasicBlock) (t, f string) {
+	ifi := blockIf(b)
+	if ifi == nil {
+		return
+	}
+	unknown := false
+	// eq: the atom says "string just read == marker" on its true (eqOnTrue) or false edge
+	classify := func(fr *cxFrame, a Atom) (isTest, eqOnTrue bool) {
+		switch a.Op {
+		case token.EQL, token.NEQ:
+			var other ssa.Value
+			if w.isMarkerConst(fr.resolve(a.X).v) {
+				other = a.Y
+			} else if w.isMarkerConst(fr.resolve(a.Y).v) {
+				other = a.X
+			} else {
+				return false, false
+			}
+			if !w.strResultFr(fr, other) {
+				unknown = true
+				return false, false
+			}
+			eq := a.Op == token.EQL
+			if a.Neg {
+				eq = !eq
+			}
+			return true, eq
+		case token.ILLEGAL:
+			if a.X == nil {
+				return false, false
+			}
+			os := origins(fr.fn, a.X)
+			if len(os) != 1 {
+				return false, false
+			}
+			call, _ := originCall(os[0])
+			if call == nil {
+				return false, false
+			}
+			g := calleeFn(call)
+			if g == nil || !w.matchers[g] {
+				return false, false
+			}
+			hasMarker := false
+			for _, arg := range call.Common().Args {
+				if w.isMarkerConst(fr.resolve(arg).v) {
+					hasMarker = true
+				}
+			}
+			if !hasMarker {
+				unknown = true
+				return false, false
+			}
+			return true, !a.Neg
+		}
+		return false, false
+	}
+	atomEQ := func(fr *cxFrame, a Atom) (bool, bool) {
+		is, eqT := classify(fr, a)
+		return is && eqT, is && !eqT
+	}
+	atomNE := func(fr *cxFrame, a Atom) (bool, bool) {
+		is, eqT := classify(fr, a)
+		return is && !eqT, is && eqT
+	}
+	tEQ, fEQ := w.c.cxValueFact(fr, ifi.Cond, atomEQ, cxDepth)
+	tNE, fNE := w.c.cxValueFact(fr, ifi.Cond, atomNE, cxDepth)
+	if k, isC := constBool(ifi.Cond); isC {
+		_ = k
+		return // a constant condition establishes nothing
+	}
+	switch {
+	case tEQ && fNE && !(tNE || fEQ):
+		return "M+", "M-"
+	case fEQ && tNE && !(tEQ || fNE):
+		return "M-", "M+"
+	case tEQ || fEQ || tNE || fNE || unknown:
+		return "M?", "M?"
+	}
+	return
+}
+
+// toggleEdges labels a test of "the stream implements the crypto-for-secret toggle": the ok result of
+// m.stream.(secretCrypto), or a nil test of the asserted value. T+ on the edge where it does, T- on the other.
+func (w *wireAnchors) toggleEdges(fr *cxFrame, b *ssa.BasicBlock) (t, f string) {
+	ifi := blockIf(b)
+	if ifi == nil {
+		return
+	}
+	isToggleAssert := func(ta *ssa.TypeAssert) bool {
+		if _, fld, ok := fieldRead(ta.X); !ok || fld != w.strF {
+			return false
+		}
+		it, ok := ta.AssertedType.Underlying().(*types.Interface)
+		if !ok {
+			return false
+		}
+		for i := 0; i < it.NumMethods(); i++ {
+			if n := it.Method(i).Name(); n == "PrepareCryptoForSecret" || n == "RestoreCryptoAfterSecret" {
+				return true
+			}
+		}
+		return false
+	}
+	a := condAtom(ifi.Cond)
+	switch a.Op {
+	case token.ILLEGAL:
+		ex, ok := a.X.(*ssa.Extract)
+		if !ok || ex.Index != 1 {
+			return
+		}
+		ta, ok := ex.Tuple.(*ssa.TypeAssert)
+		if !ok || !ta.CommaOk || !isToggleAssert(ta) {
+			return
+		}
+		if a.Neg {
+			return "T-", "T+"
+		}
+		return "T+", "T-"
+	case token.EQL, token.NEQ:
+		var other ssa.Value
+		if isNilConst(a.Y) {
+			other = a.X
+		} else if isNilConst(a.X) {
+			other = a.Y
+		} else {
+			return
+		}
+		os := cxOrigins(fr, other, nil)
+		if len(os) == 0 {
+			return
+		}
+		for _, o := range os {
+			ex, ok := o.v.(*ssa.Extract)
+			if !ok || ex.Index != 0 {
+				return
+			}
+			ta, ok := ex.Tuple.(*ssa.TypeAssert)
+			if !ok || !ta.CommaOk || !isToggleAssert(ta) {
+				return
+			}
+		}
+		isNil := a.Op == token.EQL
+		if a.Neg {
+			isNil = !isNil
+		}
+		if isNil {
+			return "T-", "T+"
+		}
+		return "T+", "T-"
+	}
+	return
+}
+
+// itemEdgesFr labels the branches that matter at item level: the secret-marker test and the toggle test.
+func (w *wireAnchors) itemEdgesFr(fr *cxFrame, b *ssa.BasicBlock) (t, f string) {
+	if t, f = w.markerEdgesFr(fr, b); t != "" || f != "" {
+		return
+	}
+	return w.toggleEdges(fr, b)
+}
+
 // ---------------------------------------------------------------------------
 // byte level: how one string is framed
 
@@ -932,6 +1278,48 @@ func (w *wireAnchors) byteAct(fn *ssa.Function, call ssa.CallInstruction) wireAc
 		return wireAct{Inline: g}
 	}
 	return wireAct{}
+}
+
+// byteActFr is byteAct in a calling context: the buffer filled by io.ReadFull and the count handed to
+// discard/GetBytes may be parameters of a read-exactly helper (traced to the caller's values).
+func (w *wireAnchors) byteActFr(fr *cxFrame, call ssa.CallInstruction) wireAct {
+	act := w.byteAct(fr.fn, call)
+	if act.Label != "NBYTES?" {
+		return act
+	}
+	g := calleeFn(call)
+	args := call.Common().Args
+	switch {
+	case g != nil && w.nbytes[g] && len(args) == 3:
+		if w.fromIntReaderFr(fr, args[2]) {
+			return wireAct{Label: "NBYTES"}
+		}
+	case g != nil && g.String() == "io.ReadFull" && len(args) == 2:
+		buf := fr.resolve(args[1])
+		if ms, ok := memRoot(buf.v).(*ssa.MakeSlice); ok && w.fromIntReaderFr(buf.fr, ms.Len) {
+			return wireAct{Label: "NBYTES"}
+		}
+	}
+	return act
+}
+
+// fromIntReaderFr is fromIntReader in a calling context.
+func (w *wireAnchors) fromIntReaderFr(fr *cxFrame, v ssa.Value) bool {
+	isReader := func(_ *cxFrame, call ssa.CallInstruction) bool {
+		g := calleeFn(call)
+		return g != nil && w.intReaders[g]
+	}
+	os := w.c.cxOriginsOK(fr, v, isReader)
+	if len(os) == 0 {
+		return false
+	}
+	for _, o := range os {
+		call, idx := originCall(o.v)
+		if call == nil || idx != 0 || !isReader(o.fr, call) {
+			return false
+		}
+	}
+	return true
 }
 
 // readsBuffer: v is (an interface holding) the value loaded from Message.buffer.
